@@ -68,7 +68,7 @@ func c10Gen(c *vfCtx, emit func(c10Case)) {
 		if !c.thorough() && (len(sub) == 4 && si%16 != 0 || len(sub) == 3 && si%2 != 0) {
 			continue
 		}
-		if c.thorough() && (len(sub) == 5 && si%40 != 0 || len(sub) == 4 && si%4 != 0) {
+		if c.thorough() && (len(sub) == 5 && si%120 != 0 || len(sub) == 4 && si%6 != 0) {
 			continue // measured: all 4- and 5-subsets with every permutation do not finish within the deadline
 		}
 		var ids []string
@@ -114,8 +114,8 @@ func c10Gen(c *vfCtx, emit func(c10Case)) {
 			var bodies []string
 			for i := range ids {
 				b := c10Bodies[(i*5+bv*4+si)%len(c10Bodies)]
-				if b == c10Huge && !c.thorough() && si%3 != 0 {
-					b = c10Long // quick tier: the 70 KB line in every third subset only (each case runs every permutation)
+				if b == c10Huge && si%3 != 0 {
+					b = c10Long // the 70 KB line in every third subset only (each case runs every permutation)
 				}
 				bodies = append(bodies, b)
 			}
